@@ -749,7 +749,7 @@ func c01GenRec(t *rapid.T, allowQuote bool) gbRec {
 	r.ResSeed = rapid.IntRange(0, 93).Draw(t, "resseed")
 	if rapid.IntRange(0, 4).Draw(t, "contig") == 0 {
 		a := rapid.IntRange(0, 50).Draw(t, "chead")
-		r.Contig = &gbContig{Acc: strings.ReplaceAll(genWord(t, 10), ":", "x"), Head: a, Tail: a + rapid.IntRange(1, 500).Draw(t, "clen")}
+		r.Contig = &gbContig{Acc: strings.ReplaceAll(genWord(t, 10), ":", "x"), Head: a, Tail: a + rapid.SampledFrom([]int{1, 2, 60, 499, 500, 99999999, 999999999, 1000000000, 1500000000, 1<<31 - 1, 1 << 31, 1<<32 + 5, 1 << 40}).Draw(t, "clen")}
 	}
 	r.Feats = genGBFeats(t, rapid.IntRange(0, 6).Draw(t, "nfeats"), r.ResLen, allowQuote)
 	return r
